@@ -304,6 +304,26 @@ class CallerErrorFamily(ScenarioFamily):
         return True
 
 
+class ProxyReplyFamily(ScenarioFamily):
+    """Every kind of proxy / SOCKS reply (the C11 generator), judged by exception class."""
+
+    chunk = 50
+
+    def generate(self, seed, index, tier):
+        from .c11 import ProxyFamily
+
+        scn = ProxyFamily("x", "asyncio", 0, 0).generate(seed, index, tier)
+        scn["c15"] = {"stage": "proxy-reply-" + scn["c11"]["kind"]}
+        scn["hostile"] = True
+        return scn
+
+    def post(self, res, scn):
+        exc_oracle(res, scn)
+
+    def nontrivial(self, res, scn):
+        return True
+
+
 register("C15", {
     "level": "exploration",
     "rule": "(a) valid conversations of all 11 connection types passed through a corrupting peer: "
@@ -321,4 +341,5 @@ register("C15", {
 }, [CorruptFamily(44, 440), ScratchFamily("C15", "scratch-async", 3000, 60000),
     FaultFamily("backend-faults-async", "asyncio", 55, 550),
     FaultFamily("backend-faults-threads", "threads", 22, 220),
-    CallerErrorFamily("C15", "caller-errors-async", 600, 6000)])
+    CallerErrorFamily("C15", "caller-errors-async", 600, 6000),
+    ProxyReplyFamily("C15", "proxy-replies-async", 1500, 30000)])
